@@ -1567,6 +1567,23 @@ def _local_names_of_function(lines: List[str]) -> Set[str]:
     return assigned - declared_global
 
 
+def _global_names_of_function(lines: List[str]) -> Set[str]:
+    """Names a function body declares ``global`` anywhere (the statement applies to the whole body)."""
+
+    import textwrap
+
+    code = [ln for ln in lines if ln.strip() and not ln.lstrip().startswith("#")]
+    try:
+        tree = ast.parse(textwrap.dedent("\n".join(code)))
+    except (SyntaxError, ValueError, RecursionError):
+        return set()
+    names: Set[str] = set()
+    for node in ast.walk(tree):
+        if isinstance(node, ast.Global):
+            names.update(node.names)
+    return names
+
+
 _PURE_BUILTINS = {"len", "abs", "min", "max", "int", "float", "bool"}
 
 # result types of the device getters whose name identifies them
@@ -2154,6 +2171,14 @@ def _parse_function(
         child_ctx["var_declared"].discard(local_name)
         child_ctx["_base_declared"].discard(local_name)
         child_ctx["var_types"].pop(local_name, None)
+
+    # ``global name`` applies to the whole body, wherever in it the statement is
+    # written (inside an ``if`` as well): the name is the sketch's variable from the
+    # first line on, never a local lifted out of the block that holds the statement.
+    for global_name in _global_names_of_function(block):
+        child_ctx["var_declared"].add(global_name)
+        child_ctx["_base_declared"].add(global_name)
+        ctx.setdefault("helper_globals", {}).setdefault(global_name, None)
 
     # A helper can run at any time: nothing the sketch assigns is a constant inside it.
     child_ctx["list_info"] = {k: dict(v) for k, v in ctx.get("list_info", {}).items()}
